@@ -13,7 +13,6 @@ TRUSTED_BASE = [
 ]
 ASSUMPTIONS = [
     "object documents have distinct keys (lookup by key = first member with that key)",
-    "std::set<int>/multiset<int> documents contain no element that is skipped without an exception (SerializeSetImpl would insert an uninitialised int: reported as a defect, modelled as the outcome UB:uninit)",
     "string -> number conversion of object keys and CSV cells is exercised on canonical decimal text and on clearly non-numeric text only (the rest is the num family's subject)",
     "integers in documents are below 2^62 in magnitude",
 ]
